@@ -190,13 +190,16 @@ def run(ctx, F):
             continue
         b = cands[0]
         ops = [mir.callee_name(t) or "" for bi, t in b.calls()]
-        has = any(re.search(rf"i8 as std::ops::{'AddAssign' if not neg else 'SubAssign'}", o) for o in ops)
-        wrong = any(re.search(rf"i8 as std::ops::{'SubAssign' if not neg else 'AddAssign'}", o) for o in ops)
-        mul = any(re.search(r"i8 as std::ops::(Mul|Div|MulAssign)", o) for o in ops)
+        # `+=` / `-=`, or the overflow-aware spellings of the same operation (saturating / wrapping / checked)
+        plus = r"i8 as std::ops::AddAssign|<i8>::(saturating|wrapping|checked)_add$"
+        minus = r"i8 as std::ops::SubAssign|<i8>::(saturating|wrapping|checked)_sub$"
+        has = any(re.search(plus if not neg else minus, o) for o in ops)
+        wrong = any(re.search(minus if not neg else plus, o) for o in ops)
+        mul = any(re.search(r"i8 as std::ops::(Mul|Div|MulAssign)|<i8>::(saturating|wrapping|checked)_(mul|div)$", o) for o in ops)
         if has and not wrong and not mul:
             ctx.ok("F5-exponent-arithmetic", f"UnitSet {tr}: exponents {'+=' if not neg else '-='}", None)
         else:
-            ctx.fail("F5-exponent-arithmetic", f"UnitSet {tr}: exponents {'+=' if not neg else '-='}", f"impl {tr} for &UnitSet combines exponents with {[o for o in ops if 'i8 as std::ops' in o]}", where=b.where())
+            ctx.fail("F5-exponent-arithmetic", f"UnitSet {tr}: exponents {'+=' if not neg else '-='}", f"impl {tr} for &UnitSet combines exponents with {[o for o in ops if 'i8' in o]}", where=b.where())
     ctx.explanation = ("Decision tables Unit::dimension / Unit::scale_factor evaluated for all 30 variants (constant f64 expressions folded) and compared with the CSS Values 4 classes and ratios; "
                        "routing of unit conversion through as_unitset in `+`, `-` and comparison (MIR); sibling-branch consistency of the numeric `+`/`-` branches (every branch combines the operands with "
                        "the same operation); exponent arithmetic of UnitSet Mul/Div. 'Any other pair is an error' is a value-level question and is not decided.")
